@@ -183,7 +183,10 @@ pub fn subsets(args: &[String], out: &mut Out) {
         p.inputs_mut()[0].set_abf(abf);
         p.outputs_mut()[0].set_abf(abf);
         roundtrip_checks(&p, "elip100+elip102", &mut bad);
-        let p2: Pset = deserialize(&serialize(&p)).unwrap();
+        let p2: Pset = match deserialize(&serialize(&p)) {
+            Ok(x) => x,
+            Err(e) => { bad.push(("C07/elip100/metadata-pset-does-not-decode".into(), e.to_string())); return bad; }
+        };
         if p2.get_asset_metadata(a1).and_then(|x| x.ok()) != Some(am) { bad.push(("C07/elip100/asset-metadata".into(), String::new())); }
         if p2.get_token_metadata(a2).and_then(|x| x.ok()) != Some(tm) { bad.push(("C07/elip100/token-metadata".into(), String::new())); }
         if p2.inputs()[0].get_abf().and_then(|x| x.ok()) != Some(abf) || p2.outputs()[0].get_abf().and_then(|x| x.ok()) != Some(abf) { bad.push(("C07/elip102/abf".into(), String::new())); }
